@@ -15,7 +15,7 @@ inductive GateKind | open | write | read | failWrite | failOpen
 
 /-- One event delivered to the torrent's event loop by the harness. -/
 inductive Op
-  | start | stop | verify | nop
+  | start | stop | verify | nop | persist
   | gate (kind : GateKind) (on : Bool)
   | mutate (file : Option Nat) (how : Mut)
   | peer (k : Nat) (ip : String) (fast ext badHash : Bool)
@@ -57,6 +57,9 @@ def handle (s : St) (parked : Parked) (known : Nat → Bool) : Op → M × Strin
     -- Torrent.Verify() deletes the persisted bitfield before it hands the command to the loop
     (onSt (handleVerifyCommand ({ s with persisted := none }, [])) fun s => { s with gateOpen := false, gateRead := false }, "", parked)
   | .nop => ((s, []), "", parked)
+  | .persist =>
+    -- Session.updateStats: the periodic writer stores the in-memory bitfield, if there is one
+    (({ s with persisted := match s.bf with | some b => some b | none => s.persisted }, []), "", parked)
   | .gate kind on =>
     let s := match kind with
       | .open => { s with gateOpen := on }
